@@ -2,7 +2,9 @@
 """save_seed.py <prop> <letter> <demo package dir> <detected_by> — copies a confirmed seeded change into /verif/seeded/<prop>-<letter>/"""
 import sys, os, shutil, json, subprocess
 prop, letter, pkgdir, detected = sys.argv[1:5]
-src = "/tmp/seed/out_%s/%s" % (prop, letter)
+src = os.environ.get("SEED_SRC") or "/tmp/seed/out_%s/%s" % (prop, letter)
+if not os.path.isdir(src):
+    src = "/tmp/seed/out2_%s/%s" % (prop, letter)
 dst = "/verif/seeded/%s-%s" % (prop, letter)
 os.makedirs(dst, exist_ok=True)
 for f in ("patch.diff", "demo_test.go", "notes.md"):
